@@ -94,13 +94,22 @@ func H_C01_FrostSign() {
 	signers := chooseSigners(ids, t)
 	msg := []byte("message hash")
 	hs := map[party.ID]protocol.Handler{}
+	before := map[party.ID]curve.Scalar{}
 	for _, id := range signers {
+		before[id] = curve.Secp256k1{}.NewScalar().Set(cfgs[id].(*keygen.Config).PrivateShare)
 		h, err := protocol.NewMultiHandler(StartSignCommon(false, cfgs[id].(*keygen.Config), signers, msg), []byte("sign-sid"))
 		vsym.Assert(err == nil, "sign starts")
 		hs[id] = h
 	}
 	runAll(hs, signers)
 	Y := cfgs[ids[0]].(*keygen.Config).PublicKey
+	for _, id := range signers {
+		// the long-lived key material a session was started with is an input, not scratch space: the next session
+		// with the same configuration must find it unchanged
+		c := cfgs[id].(*keygen.Config)
+		vsym.Assert(c.PrivateShare.Equal(before[id]), "signing leaves the party's secret share unchanged")
+		vsym.Assert(c.PrivateShare.ActOnBase().Equal(c.VerificationShares.Points[id]), "after signing the share still matches the public table")
+	}
 	var first *Signature
 	for _, id := range signers {
 		r, err := hs[id].Result()
